@@ -291,16 +291,23 @@ fn run_boot(h: &HCtx, ops: &[String], start: usize, restarted: bool, lines: &Ref
             v.sort();
             v.into_iter().map(|x| x.1).collect::<Vec<_>>().join(";")
         };
+        // the vendor id of the fabric record (AddNOC's AdminVendorId, changed by SetVIDVerificationStatement)
+        let vids = |fabrics: &rs_matter::fabric::Fabrics| -> String {
+            let mut v: Vec<(u8, String)> = fabrics.iter().map(|f| (f.fab_idx().get(), format!("{}:{}", f.fab_idx().get(), f.vendor_id()))).collect();
+            v.sort();
+            v.into_iter().map(|x| x.1).collect::<Vec<_>>().join(";")
+        };
+        let v_mem = device.with_state(|state| vids(&state.fabrics));
         let k_mem = device.with_state(|state| keymap(&state.fabrics));
         let g_mem = device.with_state(|state| gnames(&state.fabrics));
         let s_mem = device.with_state(|state| keysets(&state.fabrics));
         let mut store = h.kv.clone();
         let mut buf = vec![0u8; 8192];
-        let (k_kv, g_kv, s_kv) = {
+        let (k_kv, g_kv, s_kv, v_kv) = {
             let mut fabrics = rs_matter::fabric::Fabrics::new();
             match fabrics.load_persist(&mut store, &mut buf) {
-                Ok(()) => (keymap(&fabrics), gnames(&fabrics), keysets(&fabrics)),
-                Err(_) => ("ERR".to_string(), "ERR".to_string(), "ERR".to_string()),
+                Ok(()) => (keymap(&fabrics), gnames(&fabrics), keysets(&fabrics), vids(&fabrics)),
+                Err(_) => ("ERR".to_string(), "ERR".to_string(), "ERR".to_string(), "ERR".to_string()),
             }
         };
         let bind_str = |b: &Bindings<8>| -> String {
@@ -367,8 +374,8 @@ fn run_boot(h: &HCtx, ops: &[String], start: usize, restarted: bool, lines: &Ref
         }
         ksubs.sort();
         format!(
-            "{} X{{K[{}] KK[{}] G[{}] KG[{}] KS[{}] KKS[{}] B[{}] KB[{}] UL[{}] KUL[{}] NL[{}] KNL[{}] SUB[{}] KSUB[{}]}}",
-            core, k_mem, k_kv, g_mem, g_kv, s_mem, s_kv, b_mem, b_kv, ul_mem, ul_kv, nl_mem, nl_kv, subs.join(";"), ksubs.join(";")
+            "{} X{{K[{}] KK[{}] G[{}] KG[{}] KS[{}] KKS[{}] V[{}] KV[{}] B[{}] KB[{}] UL[{}] KUL[{}] NL[{}] KNL[{}] SUB[{}] KSUB[{}]}}",
+            core, k_mem, k_kv, g_mem, g_kv, s_mem, s_kv, v_mem, v_kv, b_mem, b_kv, ul_mem, ul_kv, nl_mem, nl_kv, subs.join(";"), ksubs.join(";")
         )
     };
 
@@ -423,7 +430,7 @@ fn run_boot(h: &HCtx, ops: &[String], start: usize, restarted: bool, lines: &Ref
                 }
                 _ => {}
             }
-            let sess_ops = ["open", "arm", "csr", "root", "addnoc", "updnoc", "label", "complete", "rmfab", "revoke", "acl", "net", "rmnet", "bcw", "gkm", "nlabel", "ulabel", "bind", "sub", "addgrp", "ksw"];
+            let sess_ops = ["open", "arm", "csr", "root", "addnoc", "updnoc", "label", "complete", "rmfab", "revoke", "acl", "net", "rmnet", "bcw", "gkm", "nlabel", "ulabel", "bind", "sub", "addgrp", "ksw", "vvs"];
             let sid = num(&w, 1) as u32;
             let mut mode = SessionMode::PlainText;
             let mut sess_local: u16 = 0;
@@ -761,6 +768,12 @@ fn run_boot(h: &HCtx, ops: &[String], start: usize, restarted: bool, lines: &Ref
                                     wr.utf8(&TLVTag::Context(1), &name)
                                 })
                                 .await
+                            }
+                            "vvs" => {
+                                // OperationalCredentials (0x3E) SetVIDVerificationStatement (0x0C): the vendor id
+                                // field alone (1 + <v>; the statement and the VVSC are left as they are)
+                                let vid = 1 + (num(&w, 2) as u16 % 0xfff0);
+                                invoke_raw!(exchange, ROOT_ENDPOINT_ID, 0x3e, 0x0c, |wr| wr.u16(&TLVTag::Context(0), vid)).await
                             }
                             "ksw" => {
                                 // GroupKeyManagement (0x3F) KeySetWrite (0x00): key set <id> with one epoch key
